@@ -183,9 +183,14 @@ impl FileSystem for OverlayFS {
         {
             return Ok(false);
         }
-        self.read_path(path)
-            .map(|path| path.exists())
-            .unwrap_or(Ok(false))
+        match self.read_path(path) {
+            Ok(path) => path.exists(),
+            Err(err) => match err.kind() {
+                VfsErrorKind::FileNotFound => Ok(false),
+                // a failing layer does not make the entry absent
+                _ => Err(err),
+            },
+        }
     }
 
     fn remove_file(&self, path: &str) -> VfsResult<()> {
